@@ -1221,70 +1221,7 @@ theorem sendStream_is_polite_client (k : Snk σ Nat) (script : List (Option Nat)
         exact ⟨[.ready false], by simp [sendStreamPoll, recd_pollReady, hb], fun a => by simp [protoOkAux],
           by simp [sendStreamPoll, recd_pollReady, hb, sends], by simp [sendStreamPoll, recd_pollReady, hb]⟩
 
-/-! ### `LazySinkSource`: the sink half alone, `LazySource` -/
-
-/-- forget the stream: the `LazySink` state a `LazySinkSource` state corresponds to, as long as the
-source half has not created a `Thunkulating { item: None }` / `Done { buf: None }` state on its own -/
-def lssProj {τ : Type} : LssSt τ α → Option (LazySt τ α)
-  | ⟨.uninit fut _ mk, i⟩ => some ⟨.uninit fut mk, i⟩
-  | ⟨.thunk fut _ mk (some x), i⟩ => some ⟨.thunk fut mk x, i⟩
-  | ⟨.thunk _ _ _ none, _⟩ => none
-  | ⟨.done _ s buf, i⟩ => some ⟨.done s buf, i⟩
-
-/-- **`LazySinkHalf` without interference** behaves exactly like `LazySink`: every sink-half call
-commutes with forgetting the stream.  (So all of `lazySink_no_item_lost_init_once` carries over to
-a `LazySinkSource` whose source half is not polled between the sink half's `Ready` and
-`start_send`; with such a poll the contract breaks — findings F4 / F4b below.) -/
-theorem lssSink_simulates_lazySink {τ : Type} (k : Snk τ α) (l : LssSt τ α) (l' : LazySt τ α)
-    (h : lssProj l = some l') :
-    lssProj ((lssSink k).pollReady l).1 = some ((lazySink k).pollReady l').1 ∧
-    ((lssSink k).pollReady l).2 = ((lazySink k).pollReady l').2 ∧
-    lssProj ((lssSink k).pollFlush l).1 = some ((lazySink k).pollFlush l').1 ∧
-    ((lssSink k).pollFlush l).2 = ((lazySink k).pollFlush l').2 ∧
-    lssProj ((lssSink k).pollClose l).1 = some ((lazySink k).pollClose l').1 ∧
-    ((lssSink k).pollClose l).2 = ((lazySink k).pollClose l').2 ∧
-    ∀ x, lssProj ((lssSink k).startSend l x).1 = some ((lazySink k).startSend l' x).1 ∧
-      ((lssSink k).startSend l x).2 = ((lazySink k).startSend l' x).2 := by
-  have key : ∀ (op : τ → τ × Bool), lssProj (lssOp k op l).1 = some (lazyOp k op l').1 ∧
-      (lssOp k op l).2 = (lazyOp k op l').2 := by
-    intro op
-    rcases l with ⟨st, i⟩
-    cases st with
-    | uninit fut stream mk =>
-      simp only [lssProj, Option.some.injEq] at h; subst h
-      simp [lssOp, lazyOp, lssProj]
-    | thunk fut stream mk item =>
-      cases item with
-      | none => simp [lssProj] at h
-      | some x =>
-        simp only [lssProj, Option.some.injEq] at h; subst h
-        simp only [lssOp, lazyOp]
-        split
-        · split <;> simp [lssProj]
-        · simp [lssProj]
-    | done stream s buf =>
-      simp only [lssProj, Option.some.injEq] at h; subst h
-      cases buf with
-      | none => simp [lssOp, lazyOp, lssProj]
-      | some x =>
-        simp only [lssOp, lazyOp]
-        split <;> simp [lssProj]
-  refine ⟨(key _).1, (key _).2, (key _).1, (key _).2, (key _).1, (key _).2, ?_⟩
-  intro x
-  rcases l with ⟨st, i⟩
-  cases st with
-  | uninit fut stream mk =>
-    simp only [lssProj, Option.some.injEq] at h; subst h
-    simp [lssSink, lazySink, lssProj]
-  | thunk fut stream mk item =>
-    cases item with
-    | none => simp [lssProj] at h
-    | some y =>
-      simp only [lssProj, Option.some.injEq] at h; subst h
-      simp [lssSink, lazySink, lssProj]
-  | done stream s buf =>
-    simp only [lssProj, Option.some.injEq] at h; subst h
-    simp [lssSink, lazySink, lssProj]
+/-! ### `LazySource` -/
 
 /-- what a scripted stream still has to deliver -/
 def streamItems (sc : List (Option Nat)) : List Nat := sc.filterMap id
@@ -1341,26 +1278,430 @@ theorem lazySource_yields_stream_in_order (l : LSrc) (n : Nat) :
     | pending => simp only [hres] at h1; simp only [sresItems]; rw [← h1, ← hr]; simp
     | ended => simp only [hres] at h1; simp only [sresItems]; rw [← h1, ← hr]; simp
 
-/-! ### findings: the contract broken by the code as it is (F4, F4b, F5) -/
+/-! ### `LazySinkSource`: both halves, arbitrarily interleaved -/
 
-/-- F4: `LazySinkHalf::poll_ready` answers `Ready` in `Uninit`; the source half is polled while the
-init future is pending; the client's `start_send` — allowed by the contract — panics. -/
-theorem lazySinkSource_send_after_ready_refuted :
+/-- a call on either half -/
+inductive LOp (α : Type) | snk (o : Op α) | next
+  deriving Repr, DecidableEq
+
+/-- the state of a run: the shared state (inner sink recorded), the trace of the client's calls on
+the sink half, the items the source half has yielded, "no `start_send` has panicked" -/
+structure LRun (σ α : Type) where
+  l : LssSt (σ × List (Ev α)) α
+  ct : List (Ev α)
+  got : List Nat
+  ok : Bool
+
+def sresItem : SRes → List Nat
+  | .item x => [x]
+  | _ => []
+
+def lssStep (k : Snk σ α) (c : LRun σ α) : LOp α → LRun σ α
+  | .snk o =>
+    let r := stepOp (lssSink k.recd).recd ((c.l, c.ct), c.ok) o
+    { c with l := r.1.1, ct := r.1.2, ok := r.2 }
+  | .next =>
+    let r := lssNext c.l
+    { c with l := r.1, got := c.got ++ sresItem r.2 }
+
+def lssRun (k : Snk σ α) (c : LRun σ α) (ops : List (LOp α)) : LRun σ α := ops.foldl (lssStep k) c
+
+def lssTrace : LSS (σ × List (Ev α)) α → List (Ev α)
+  | .uninit _ _ mk => mk.2
+  | .thunk _ _ mk _ => mk.2
+  | .done _ s _ _ => s.2
+
+def lssPending {τ : Type} : LSS τ α → List α
+  | .thunk _ _ _ (some x) => [x]
+  | .done _ _ (some x) _ => [x]
+  | _ => []
+
+def lssUninit {τ : Type} : LSS τ α → Bool
+  | .uninit _ _ _ => true
+  | _ => false
+
+def lssStream {τ : Type} : LSS τ α → List (Option Nat)
+  | .uninit _ st _ => st
+  | .thunk _ st _ _ => st
+  | .done st _ _ _ => st
+
+/-- `sink_ready` is only set while nothing is held back and the inner sink is armed -/
+def lssRdyOk : LSS (σ × List (Ev α)) α → Bool
+  | .done _ s none true => armedAfter false s.2
+  | .done _ _ (some _) true => false
+  | _ => true
+
+structure LSSInv (l : LssSt (σ × List (Ev α)) α) (ct : List (Ev α)) : Prop where
+  proto : protoOk (lssTrace l.st) = true
+  data : sends (lssTrace l.st) ++ lssPending l.st = sends ct
+  once : (lssUninit l.st = true → l.inits = 0) ∧ (lssUninit l.st = false → l.inits = 1)
+  rdy : lssRdyOk l.st = true
+  armed : armedAfter false ct = true → lssPending l.st = []
+  polled : lastTrue ct = true → lssPending l.st = []
+
+/-- one `poll_ready` / `poll_flush` / `poll_close` of the sink half -/
+theorem aux_lssOp (k : Snk σ α) (op : σ × List (Ev α) → (σ × List (Ev α)) × Bool) (mkEv : Bool → Ev α)
+    (isReady : Bool)
+    (hop : ∀ p, (op p).1.2 = p.2 ++ [mkEv (op p).2])
+    (hns : ∀ b x, mkEv b ≠ .send x)
+    (harm : ∀ a b, armedAfter a [mkEv b] = if isReady then b else a)
+    (hlast : ∀ t b, lastTrue (t ++ [mkEv b]) = b)
+    (l : LssSt (σ × List (Ev α)) α) (ct : List (Ev α)) (hI : LSSInv l ct) :
+    LSSInv (lssOp k.recd op isReady l).1 (ct ++ [mkEv (lssOp k.recd op isReady l).2]) := by
+  obtain ⟨p, d, on, rd, ar, po⟩ := hI
+  have hsn : ∀ (t : List (Ev α)) b, sends (t ++ [mkEv b]) = sends t := by
+    intro t b; rw [aux_sends_append]
+    cases h : mkEv b with
+    | send x => exact absurd h (hns b x)
+    | ready _ => simp [sends]
+    | flush _ => simp [sends]
+    | close _ => simp [sends]
+  have hpo : ∀ (t : List (Ev α)) b, protoOk t = true → protoOk (t ++ [mkEv b]) = true :=
+    fun t b h => aux_protoOk_snoc_poll t _ h (hns b)
+  have hburst : ∀ (t : List (Ev α)) (x : α), protoOk t = true →
+      protoOk (t ++ [.ready true] ++ [.send x]) = true := by
+    intro t x h
+    simp only [protoOk, aux_protoOkAux_append, protoOkAux, armedAfter, Bool.and_eq_true, Bool.and_true] at h ⊢
+    simp [h, aux_armedAfter_append, armedAfter]
+  -- the common tail: the state is (or has just become) `Done`
+  have hdone : ∀ (stream : List (Option Nat)) (s : σ × List (Ev α)) (buf : Option α) (rdy : Bool) (ini : Nat),
+      protoOk s.2 = true → sends s.2 ++ (match buf with | some x => [x] | none => []) = sends ct →
+      ini = 1 → (rdy = true → buf = none ∧ armedAfter false s.2 = true) →
+      (armedAfter false ct = true → buf = none) →
+      LSSInv (lssOp k.recd op isReady ⟨.done stream s buf rdy, ini⟩).1
+        (ct ++ [mkEv (lssOp k.recd op isReady ⟨.done stream s buf rdy, ini⟩).2]) := by
+    intro stream s buf rdy ini p d hi hr ha
+    cases buf with
+    | some item =>
+      have hrf : rdy = false := by
+        cases rdy with
+        | false => rfl
+        | true => have := (hr rfl).1; cases this
+      subst hrf
+      simp only [lssOp, recd_pollReady, recd_startSend]
+      by_cases hb0 : (k.pollReady s.1).2 = true
+      case neg =>
+        have hb : (k.pollReady s.1).2 = false := by simpa using hb0
+        simp only [hb, Bool.false_eq_true, if_false]
+        refine ⟨by simp only [lssTrace]; exact aux_protoOk_snoc_poll _ _ p (by simp),
+          by simp only [lssTrace, lssPending]; rw [hsn, aux_sends_snoc_ready]; exact d,
+          ⟨by simp [lssUninit], fun _ => hi⟩, rfl, ?_, ?_⟩
+        · intro h; rw [aux_armedAfter_append, harm] at h
+          cases isReady
+          · simp only [Bool.false_eq_true, if_false] at h; have := ha h; cases this
+          · simp at h
+        · intro h; rw [hlast] at h; cases h
+      case pos =>
+        simp only [hb0, if_true]
+        refine ⟨?_, ?_, ⟨by simp [lssUninit], fun _ => hi⟩, ?_, fun _ => rfl, fun _ => rfl⟩
+        · simp only [lssTrace]; rw [hop]; exact hpo _ _ (hburst _ _ p)
+        · simp only [lssTrace, lssPending, List.append_nil]
+          rw [hop, hsn, hsn, aux_sends_snoc_send, aux_sends_snoc_ready]; exact d
+        · cases isReady
+          · rfl
+          · simp only [if_true]
+            cases hr2 : (op ((k.startSend (k.pollReady s.1).1 item).1, s.2 ++ [Ev.ready true] ++ [Ev.send item])).2 with
+            | false => rfl
+            | true =>
+              simp only [lssRdyOk]
+              rw [hop, aux_armedAfter_append, harm, hr2]; rfl
+    | none =>
+      simp only [lssOp]
+      refine ⟨by simp only [lssTrace]; rw [hop]; exact hpo _ _ p,
+        by simp only [lssTrace, lssPending]; rw [hop, hsn, hsn]; simpa using d,
+        ⟨by simp [lssUninit], fun _ => hi⟩, ?_, fun _ => rfl, fun _ => rfl⟩
+      cases isReady
+      · simp only [Bool.false_eq_true, if_false]
+        cases rdy with
+        | false => rfl
+        | true =>
+          simp only [lssRdyOk]
+          rw [hop, aux_armedAfter_append, harm]; simpa using (hr rfl).2
+      · simp only [if_true]
+        cases hr2 : (op s).2 with
+        | false => rfl
+        | true =>
+          simp only [lssRdyOk]
+          rw [hop, aux_armedAfter_append, harm, hr2]; rfl
+  rcases l with ⟨st, ini⟩
+  cases st with
+  | uninit fut stream mk =>
+    simp only [lssOp]
+    exact ⟨p, by rw [hsn]; exact d, on, rd, fun _ => rfl, fun _ => rfl⟩
+  | thunk fut stream mk item =>
+    simp only [lssTrace] at p d
+    by_cases hf : (futPoll fut).2 = true
+    case neg =>
+      have hf' : (futPoll fut).2 = false := by simpa using hf
+      simp only [lssOp, hf', Bool.false_eq_true, if_false]
+      have hpe : lssPending (LSS.thunk (futPoll fut).1 stream mk item) = lssPending (LSS.thunk fut stream mk item) := by
+        cases item <;> rfl
+      refine ⟨p, by rw [hsn]; simp only [lssTrace]; rw [hpe]; exact d,
+        ⟨by simp [lssUninit], fun _ => on.2 rfl⟩, rfl, ?_, ?_⟩
+      · intro h; rw [aux_armedAfter_append, harm] at h
+        cases isReady
+        · simp only [Bool.false_eq_true, if_false] at h; exact hpe.trans (ar h)
+        · simp at h
+      · intro h; rw [hlast] at h; cases h
+    case pos =>
+      have := hdone stream mk item false ini p (by cases item <;> simpa [lssPending] using d) (on.2 rfl)
+        (by intro h; cases h) (by intro h; have := ar h; cases item <;> simp_all [lssPending])
+      simpa only [lssOp, hf, if_true] using this
+  | done stream s buf rdy =>
+    simp only [lssTrace] at p d
+    exact hdone stream s buf rdy ini p (by cases buf <;> simpa [lssPending] using d) (on.2 rfl)
+      (by intro h; subst h; cases buf <;> simp_all [lssRdyOk])
+      (by intro h; have := ar h; cases buf <;> simp_all [lssPending])
+
+theorem aux_lssOp_stream {τ : Type} (k : Snk τ α) (op : τ → τ × Bool) (isReady : Bool) (l : LssSt τ α) :
+    lssStream (lssOp k op isReady l).1.st = lssStream l.st := by
+  rcases l with ⟨st, ini⟩
+  cases st with
+  | uninit fut stream mk => rfl
+  | thunk fut stream mk item =>
+    simp only [lssOp]
+    split
+    · cases item with
+      | none => rfl
+      | some x => simp only []; split <;> rfl
+    · rfl
+  | done stream s buf rdy =>
+    cases buf with
+    | none => rfl
+    | some x => simp only [lssOp]; split <;> rfl
+
+theorem aux_lssSend_stream {τ : Type} (k : Snk τ α) (l : LssSt τ α) (x : α) :
+    lssStream ((lssSink k).startSend l x).1.st = lssStream l.st := by
+  rcases l with ⟨st, ini⟩
+  cases st with
+  | uninit fut stream mk => rfl
+  | thunk fut stream mk item => cases item <;> rfl
+  | done stream s buf rdy => cases rdy <;> rfl
+
+/-- one call on the sink half by a contract-honouring client -/
+theorem aux_lss_sink_step (k : Snk σ α) (l : LssSt (σ × List (Ev α)) α) (ct : List (Ev α)) (ok : Bool) (o : Op α)
+    (hI : LSSInv l ct)
+    (hc : protoOk (stepOp (lssSink k.recd).recd ((l, ct), ok) o).1.2 = true) :
+    LSSInv (stepOp (lssSink k.recd).recd ((l, ct), ok) o).1.1 (stepOp (lssSink k.recd).recd ((l, ct), ok) o).1.2 ∧
+    ((∀ s x, (k.startSend s x).2 = true) → ok = true →
+      (stepOp (lssSink k.recd).recd ((l, ct), ok) o).2 = true) := by
+  cases o with
+  | ready =>
+    simp only [stepOp, recd_pollReady, lssSink]
+    exact ⟨aux_lssOp k k.recd.pollReady .ready true (fun p => by rw [recd_pollReady]) (by simp)
+      (by intro a b; simp [armedAfter]) (by intro t b; rw [aux_lastTrue_snoc]) l ct hI, fun _ h => h⟩
+  | flush =>
+    simp only [stepOp, recd_pollFlush, lssSink]
+    exact ⟨aux_lssOp k k.recd.pollFlush .flush false (fun p => by rw [recd_pollFlush]) (by simp)
+      (by intro a b; simp [armedAfter]) (by intro t b; rw [aux_lastTrue_snoc]) l ct hI, fun _ h => h⟩
+  | close =>
+    simp only [stepOp, recd_pollClose, lssSink]
+    exact ⟨aux_lssOp k k.recd.pollClose .close false (fun p => by rw [recd_pollClose]) (by simp)
+      (by intro a b; simp [armedAfter]) (by intro t b; rw [aux_lastTrue_snoc]) l ct hI, fun _ h => h⟩
+  | send x =>
+    simp only [stepOp, recd_startSend] at hc ⊢
+    have harm : armedAfter false ct = true := by
+      simp only [protoOk, aux_protoOkAux_append, protoOkAux, Bool.and_eq_true, Bool.and_true] at hc
+      exact hc.2
+    obtain ⟨p, d, on, rd, ar, po⟩ := hI
+    have hfree := ar harm
+    have hna : armedAfter false (ct ++ [Ev.send x]) = true → False := by
+      intro h; simp [aux_armedAfter_append, armedAfter] at h
+    have hnl : lastTrue (ct ++ [Ev.send x]) = true → False := by
+      intro h; rw [aux_lastTrue_snoc] at h; cases h
+    rcases l with ⟨st, ini⟩
+    cases st with
+    | uninit fut stream mk =>
+      simp only [lssTrace, lssPending] at p d
+      simp only [lssSink]
+      refine ⟨⟨p, by simp only [lssTrace, lssPending]; rw [aux_sends_snoc_send, ← d]; simp, ?_, rfl,
+        fun h => (hna h).elim, fun h => (hnl h).elim⟩, fun _ h => by simp [h]⟩
+      refine ⟨(by intro h; cases h), fun _ => ?_⟩
+      have := on.1 rfl
+      simp only at this ⊢; omega
+    | thunk fut stream mk item =>
+      cases item with
+      | some y => simp [lssPending] at hfree
+      | none =>
+        simp only [lssTrace, lssPending] at p d
+        simp only [lssSink]
+        exact ⟨⟨p, by simp only [lssTrace, lssPending]; rw [aux_sends_snoc_send, ← d]; simp,
+          ⟨(by intro h; cases h), fun _ => on.2 rfl⟩, rfl, fun h => (hna h).elim, fun h => (hnl h).elim⟩,
+          fun _ h => by simp [h]⟩
+    | done stream s buf rdy =>
+      cases buf with
+      | some y => simp [lssPending] at hfree
+      | none =>
+        simp only [lssTrace, lssPending] at p d
+        cases rdy with
+        | false =>
+          simp only [lssSink]
+          exact ⟨⟨p, by simp only [lssTrace, lssPending]; rw [aux_sends_snoc_send, ← d]; simp,
+            ⟨(by intro h; cases h), fun _ => on.2 rfl⟩, rfl, fun h => (hna h).elim, fun h => (hnl h).elim⟩,
+            fun _ h => by simp [h]⟩
+        | true =>
+          have hia : armedAfter false s.2 = true := by simpa [lssRdyOk] using rd
+          simp only [lssSink, recd_startSend, if_true]
+          refine ⟨⟨?_, by simp only [lssTrace, lssPending]; rw [aux_sends_snoc_send, aux_sends_snoc_send, ← d]; simp,
+            ⟨(by intro h; cases h), fun _ => on.2 rfl⟩, rfl, fun h => (hna h).elim, fun h => (hnl h).elim⟩,
+            fun hk h => by simp [h, hk]⟩
+          simp only [lssTrace, protoOk, aux_protoOkAux_append, protoOkAux, Bool.and_eq_true, Bool.and_true]
+          exact ⟨p, hia⟩
+
+/-- one poll of the source half: nothing the sink half relies on changes; the yielded item comes off
+the front of the stream -/
+theorem aux_lss_next_step (l : LssSt (σ × List (Ev α)) α) (ct : List (Ev α)) (hI : LSSInv l ct) :
+    LSSInv (lssNext l).1 ct ∧
+    sresItem (lssNext l).2 ++ streamItems (lssStream (lssNext l).1.st) = streamItems (lssStream l.st) := by
+  have hs : ∀ sc : List (Option Nat),
+      sresItem (streamPoll sc).2 ++ streamItems (streamPoll sc).1 = streamItems sc := by
+    intro sc
+    cases sc with
+    | nil => simp [streamPoll, streamItems, sresItem]
+    | cons a t => cases a <;> simp [streamPoll, streamItems, sresItem]
+  obtain ⟨p, d, on, rd, ar, po⟩ := hI
+  rcases l with ⟨st, ini⟩
+  cases st with
+  | uninit fut stream mk =>
+    simp only [lssTrace, lssPending] at p d
+    have hi : ini = 0 := on.1 rfl
+    by_cases hf : (futPoll fut).2 = true
+    · simp only [lssNext, hf, if_true]
+      exact ⟨⟨p, d, ⟨(by intro h; cases h), fun _ => by simp [hi]⟩, rfl, fun _ => rfl, fun _ => rfl⟩, hs stream⟩
+    · have hf' : (futPoll fut).2 = false := by simpa using hf
+      simp only [lssNext, hf', Bool.false_eq_true, if_false]
+      exact ⟨⟨p, d, ⟨(by intro h; cases h), fun _ => by simp [hi]⟩, rfl, fun _ => rfl, fun _ => rfl⟩,
+        by simp [sresItem, lssStream]⟩
+  | thunk fut stream mk item =>
+    simp only [lssTrace] at p d
+    by_cases hf : (futPoll fut).2 = true
+    · simp only [lssNext, hf, if_true]
+      refine ⟨⟨p, by cases item <;> exact d, ⟨(by intro h; cases h), fun _ => on.2 rfl⟩, by cases item <;> rfl,
+        fun h => by have := ar h; cases item <;> simp_all [lssPending],
+        fun h => by have := po h; cases item <;> simp_all [lssPending]⟩, hs stream⟩
+    · have hf' : (futPoll fut).2 = false := by simpa using hf
+      simp only [lssNext, hf', Bool.false_eq_true, if_false]
+      refine ⟨⟨p, by cases item <;> exact d, ⟨(by intro h; cases h), fun _ => on.2 rfl⟩, rfl,
+        fun h => by have := ar h; cases item <;> simp_all [lssPending],
+        fun h => by have := po h; cases item <;> simp_all [lssPending]⟩, by simp [sresItem, lssStream]⟩
+  | done stream s buf rdy =>
+    simp only [lssNext]
+    refine ⟨⟨p, by cases buf <;> exact d, ⟨(by intro h; cases h), fun _ => on.2 rfl⟩, ?_,
+      fun h => by have := ar h; cases buf <;> simp_all [lssPending],
+      fun h => by have := po h; cases buf <;> simp_all [lssPending]⟩, hs stream⟩
+    cases buf <;> cases rdy <;> simp_all [lssRdyOk]
+
+structure LRunInv (k : Snk σ α) (stream₀ : List (Option Nat)) (c : LRun σ α) : Prop where
+  inv : LSSInv c.l c.ct
+  src : c.got ++ streamItems (lssStream c.l.st) = streamItems stream₀
+  ok : (∀ s x, (k.startSend s x).2 = true) → c.ok = true
+
+theorem aux_lss_sink_stream (k : Snk σ α) (l : LssSt (σ × List (Ev α)) α) (ct : List (Ev α)) (ok : Bool) (o : Op α) :
+    lssStream (stepOp (lssSink k.recd).recd ((l, ct), ok) o).1.1.st = lssStream l.st ∧
+    ∃ e, (stepOp (lssSink k.recd).recd ((l, ct), ok) o).1.2 = ct ++ [e] := by
+  cases o with
+  | ready => exact ⟨by simp only [stepOp, recd_pollReady, lssSink]; exact aux_lssOp_stream _ _ _ _, _, by simp only [stepOp, recd_pollReady]; rfl⟩
+  | flush => exact ⟨by simp only [stepOp, recd_pollFlush, lssSink]; exact aux_lssOp_stream _ _ _ _, _, by simp only [stepOp, recd_pollFlush]; rfl⟩
+  | close => exact ⟨by simp only [stepOp, recd_pollClose, lssSink]; exact aux_lssOp_stream _ _ _ _, _, by simp only [stepOp, recd_pollClose]; rfl⟩
+  | send x => exact ⟨by simp only [stepOp, recd_startSend]; exact aux_lssSend_stream _ _ _, _, by simp only [stepOp, recd_startSend]; rfl⟩
+
+theorem aux_lss_run (k : Snk σ α) (stream₀ : List (Option Nat)) (ops : List (LOp α)) :
+    ∀ (c : LRun σ α), (protoOk c.ct = true → LRunInv k stream₀ c) →
+      protoOk (lssRun k c ops).ct = true → LRunInv k stream₀ (lssRun k c ops) := by
+  induction ops with
+  | nil => intro c h hc; exact h hc
+  | cons op ops ih =>
+    intro c h hc
+    simp only [lssRun, List.foldl_cons] at ih hc ⊢
+    apply ih _ _ hc
+    intro hc'
+    cases op with
+    | next =>
+      simp only [lssStep] at hc' ⊢
+      obtain ⟨hI, hs, hk⟩ := h hc'
+      obtain ⟨h1, h2⟩ := aux_lss_next_step c.l c.ct hI
+      exact ⟨h1, by simp only []; rw [List.append_assoc, h2]; exact hs, hk⟩
+    | snk o =>
+      simp only [lssStep] at hc' ⊢
+      obtain ⟨hst, e, he⟩ := aux_lss_sink_stream k c.l c.ct c.ok o
+      have hpre : protoOk c.ct = true := by rw [he] at hc'; exact aux_protoOk_prefix _ _ hc'
+      obtain ⟨hI, hs, hk⟩ := h hpre
+      obtain ⟨h1, h2⟩ := aux_lss_sink_step k c.l c.ct c.ok o hI hc'
+      exact ⟨h1, by simp only []; rw [hst]; exact hs, fun hh => h2 hh (hk hh)⟩
+
+/-- **`LazySinkSource`, both halves, every interleaving** (after the repair of F4 / F4b).  Over any
+inner sink `k` (fresh state `s`), any init-future script, any stream script, and any sequence of
+calls on the two halves in which the calls on the sink half honour the `Sink` contract — the polls of
+the source half may fall anywhere, in particular between a `Ready` and the `start_send` it allows,
+before, during and after the initialisation:
+ * the inner sink sees a contract-honouring call sequence (`start_send` only after its own `Ready`);
+ * *no item lost*: what the inner sink received, followed by the one item that may still be held
+   (sent before or during initialisation, or while the inner sink was not readied), is exactly what
+   the client sent, in order, once;
+ * *initialised at most once*, whichever half started it;
+ * whenever the client may send, the one-item slot is free: the "`LazySinkHalf` not ready" panic is
+   unreachable, and if the inner sink never panics no `start_send` of the sink half does;
+ * once any poll of the sink half answered `Ready`, nothing is held back any more;
+ * the source half yields the stream's items in order, none lost, none repeated. -/
+theorem lazySinkSource_interleaved_no_item_lost_init_once (k : Snk σ α) (s : σ) (fut : List Bool)
+    (stream : List (Option Nat)) (ops : List (LOp α)) :
+    let r := lssRun k ⟨⟨.uninit fut stream (s, []), 0⟩, [], [], true⟩ ops
+    protoOk r.ct = true →
+      protoOk (lssTrace r.l.st) = true ∧
+      sends (lssTrace r.l.st) ++ lssPending r.l.st = sends r.ct ∧
+      r.l.inits ≤ 1 ∧ (r.l.inits = 0 ↔ lssUninit r.l.st = true) ∧
+      (armedAfter false r.ct = true → lssPending r.l.st = []) ∧
+      ((∀ s x, (k.startSend s x).2 = true) → r.ok = true) ∧
+      (lastTrue r.ct = true → sends (lssTrace r.l.st) = sends r.ct) ∧
+      r.got ++ streamItems (lssStream r.l.st) = streamItems stream := by
+  intro r hc
+  have h := aux_lss_run k stream ops ⟨⟨.uninit fut stream (s, []), 0⟩, [], [], true⟩
+    (fun _ => ⟨⟨rfl, rfl, ⟨fun _ => rfl, fun h => by simp [lssUninit] at h⟩, rfl, fun _ => rfl, fun _ => rfl⟩,
+      by simp [lssStream], fun _ => rfl⟩) hc
+  have h1 : lssUninit r.l.st = true → r.l.inits = 0 := h.inv.once.1
+  have h2 : lssUninit r.l.st = false → r.l.inits = 1 := h.inv.once.2
+  refine ⟨h.inv.proto, h.inv.data, ?_, ?_, h.inv.armed, h.ok, fun hl => ?_, h.src⟩
+  · cases hu : lssUninit r.l.st with
+    | true => have := h1 hu; omega
+    | false => have := h2 hu; omega
+  · constructor
+    · intro h0
+      cases hu : lssUninit r.l.st with
+      | true => rfl
+      | false => have := h2 hu; omega
+    · exact h1
+  · have := h.inv.data; rw [h.inv.polled hl, List.append_nil] at this; exact this
+
+/-- non-vacuity, on the F4 / F4b interleavings themselves: `Ready` while `Uninit`, the source half
+polled (init pending, then complete), `start_send`, … — the client honours the contract, the inner
+sink is honoured too and has received both items after the flush -/
+example :
+    let r := lssRun D.snk ⟨⟨.uninit [false, true] [none, some 7] (⟨[true, false, true], [], []⟩, []), 0⟩, [], [], true⟩
+      [.snk .ready, .next, .snk (.send 1), .next, .snk .ready, .next, .snk .ready, .snk .ready, .snk (.send 2), .snk .flush]
+    protoOk r.ct = true ∧ r.ok = true ∧ sends (lssTrace r.l.st) = [1, 2] ∧ protoOk (lssTrace r.l.st) = true ∧
+      r.got = [7] ∧ r.l.inits = 1 := by
+  decide
+
+/-! ### findings: F4 / F4b (repaired in /repo, refuted on the code as it was), F5 (known) -/
+
+/-- F4, before the repair: `LazySinkHalf::poll_ready` answers `Ready` in `Uninit`; the source half is
+polled while the init future is pending; the client's `start_send` — allowed by the contract — panics. -/
+theorem lazySinkSource_send_after_ready_refuted_before_fix :
     let l₀ : LssSt DR Nat := ⟨.uninit [false, true] [none, some 7] (⟨[], [], []⟩, []), 0⟩
     let r₁ := (lssSink dsnk).pollReady l₀
     let r₂ := lssNext r₁.1
-    r₁.2 = true ∧ r₂.2 = .pending ∧ ((lssSink dsnk).startSend r₂.1 1).2 = false := by
+    r₁.2 = true ∧ r₂.2 = .pending ∧ (lssStartSendBeforeFix dsnk r₂.1 1).2 = false := by
   decide
 
-/-- F4b: same interleaving with a future that is ready at once: the item reaches the inner sink's
-`start_send` although the inner sink was never asked `poll_ready`. -/
-theorem lazySinkSource_inner_contract_refuted :
+/-- F4b, before the repair: same interleaving with a future that is ready at once: the item reaches
+the inner sink's `start_send` although the inner sink was never asked `poll_ready`. -/
+theorem lazySinkSource_inner_contract_refuted_before_fix :
     let l₀ : LssSt DR Nat := ⟨.uninit [true] [some 7] (⟨[], [], []⟩, []), 0⟩
     let r₁ := (lssSink dsnk).pollReady l₀
     let r₂ := lssNext r₁.1
-    let r₃ := (lssSink dsnk).startSend r₂.1 1
+    let r₃ := lssStartSendBeforeFix dsnk r₂.1 1
     r₁.2 = true ∧ r₂.2 = .item 7 ∧ r₃.2 = true ∧
-      (match r₃.1.st with | .done _ d _ => protoOk d.2 | _ => true) = false := by
+      (match r₃.1.st with | .done _ d _ _ => protoOk d.2 | _ => true) = false := by
   decide
 
 /-- F5: `LazyDemuxSink`: `poll_ready` over the (empty) map answers `Ready`, `start_send` for a new
